@@ -968,13 +968,22 @@ impl Interpreter {
 
         // Restore environment and finalize exports if we used a module environment
         if let (Some(saved), Some(module_env)) = (saved_env, module_env) {
-            self.env = saved;
+            if let Ok(StepResult::Suspended { .. }) = &result {
+                // The module body continues through step() once the host has answered:
+                // keep its environment installed and let step() finalize the exports,
+                // exactly as after prepare().
+                self.active_module_path = module_path;
+                self.active_saved_env = Some(saved);
+                self.active_module_env = Some(module_env);
+            } else {
+                self.env = saved;
 
-            // If execution completed successfully, store the main module exports
-            if let Ok(StepResult::Complete(_)) = &result
-                && let Some(ref path) = module_path
-            {
-                self.finalize_module_exports(path.clone(), module_env);
+                // If execution completed successfully, store the main module exports
+                if let Ok(StepResult::Complete(_)) = &result
+                    && let Some(ref path) = module_path
+                {
+                    self.finalize_module_exports(path.clone(), module_env);
+                }
             }
         }
 
